@@ -138,6 +138,10 @@ class Contracts:
             obj = T.V(cl.params[0]) if cl.params else None
             ref_attrs = {x[2] for x in T.walk(rterm) if x[0] == 'setattr' and x[1] == obj} | \
                         {x[2] for x in T.walk(rterm) if x[0] == 'upd'}
+            # ... unless the new attribute shadows a method / property of the class (that changes behaviour)
+            if cfi.cls is not None:
+                for c in self.program.mro(cfi.cls) + self.program.subclasses(cfi.cls):
+                    ref_attrs |= set(c.methods) | set(c.class_attrs)
             extra = set()
 
             def strip(t):
